@@ -104,7 +104,7 @@ class BoundedWriter {
   }
 
   template <typename HandleType>
-  constexpr Status<HandleType> PushHandle(const HandleType& handle) {
+  constexpr Status<HandleReference> PushHandle(const HandleType& handle) {
     return writer_->PushHandle(handle);
   }
 
